@@ -90,6 +90,7 @@ pub struct C13;
 
 pub const KF_O8: &str = "synreceived-child-never-reaped";
 pub const KF_FW2: &str = "orphan-finwait2-after-lost-rst";
+pub const KF_O7C: &str = "lost-handshake-ack-not-recovered";
 
 type ConnFut = Pin<Box<dyn Future<Output = std::io::Result<TcpStream>>>>;
 
@@ -141,6 +142,8 @@ struct Sim<'a> {
     nontrivial: bool,
     aborted_handshake: bool,
     udp_keep: Vec<UdpSocket>,
+    /// client->server 4-tuples whose handshake ACK (first pure ACK) already passed the wire
+    handshake_acked: Vec<(SocketAddr, SocketAddr)>,
 }
 
 fn q_rounds(cfg: &NetCfg) -> u64 {
@@ -499,6 +502,10 @@ impl<'a> Sim<'a> {
     // the wire
 
     fn fate(&self, idx: u32) -> Option<FaultKind> {
+        // the re-use epilogue runs on a clean wire
+        if self.wire_pkts > 0 && idx >= self.wire_pkts {
+            return None;
+        }
         self.sc.faults.iter().find(|f| f.idx == idx).map(|f| f.kind)
     }
 
@@ -556,6 +563,30 @@ impl<'a> Sim<'a> {
                 } else {
                     f
                 };
+            // known finding (C06's O7c: a lost handshake ACK is not repaired, the duplicate SYN-ACK
+            // is not re-ACKed): guarded scenarios do not drop the handshake ACK
+            let first_ack = if kind(&p) == PktKind::Ack {
+                let (sp, dp) = ports(&p);
+                let tuple = (SocketAddr::new(p.src, sp), SocketAddr::new(p.dst, dp));
+                let is_client = self.cs.iter().any(|c| c.target == Some(tuple.1) && (c.wire_src == Some(tuple.0) || c.client_local == Some(tuple.0)));
+                if is_client && !self.handshake_acked.contains(&tuple) {
+                    self.handshake_acked.push(tuple);
+                    true
+                } else {
+                    false
+                }
+            } else {
+                false
+            };
+            let f = if self.sc.guarded && first_ack && f == Some(FaultKind::Drop) {
+                self.rep.probes.inc("guard_kept_handshake_ack");
+                None
+            } else {
+                if first_ack && f == Some(FaultKind::Drop) {
+                    self.rep.probes.inc("handshake_ack_dropped");
+                }
+                f
+            };
             match f {
                 Some(FaultKind::Drop) => {
                     self.rep.faults.inc(&format!("drop_{}", kind(&p).name()));
@@ -1033,6 +1064,7 @@ fn run_inner(sc: &Scenario, keep: bool) -> (Report, u32) {
         nontrivial: false,
         aborted_handshake: false,
         udp_keep: Vec::new(),
+        handshake_acked: Vec::new(),
     };
     let r = core::catch(|| execute(&mut sim));
     let Sim { d, log, mut rep, mut v, herr, cs, ls, strays, udp_keep, nontrivial, wire_pkts, .. } = sim;
@@ -1376,7 +1408,8 @@ impl Property for C13 {
         // when the minimised scenario still contains a connector that gives up on a live listener
         match matcher {
             KF_O8 => v.class == "LeakAbortedHandshake",
-            KF_FW2 => v.class == "LeakFinWait2" && !sc.guarded && sc.faults.iter().any(|f| f.kind == FaultKind::Drop),
+            KF_FW2 => v.class == "LeakFinWait2" && sc.faults.iter().any(|f| f.kind == FaultKind::Drop),
+            KF_O7C => v.class == "NotAccepted" && !sc.guarded && sc.faults.iter().any(|f| f.kind == FaultKind::Drop),
             _ => false,
         }
     }
@@ -1436,6 +1469,7 @@ mod tests {
         trig.faults.push(Fault { idx: 3, kind: FaultKind::Drop });
         assert!(C13::known_match(KF_FW2, &trig, &Violation::new("LeakFinWait2", "")));
         trig.guarded = true;
-        assert!(!C13::known_match(KF_FW2, &trig, &Violation::new("LeakFinWait2", "")));
+        assert!(C13::known_match(KF_FW2, &trig, &Violation::new("LeakFinWait2", "")));
+        assert!(!C13::known_match(KF_O7C, &trig, &Violation::new("NotAccepted", "")));
     }
 }
